@@ -21,16 +21,17 @@ import (
 
 // Inst is one bounded instance of a harness.
 type Inst struct {
-	Pkg      string
-	Fn       string
-	Args     []int64
-	Unwind   int
-	MaxPaths int
-	Ctx      int  // context-switch bound (0 = unbounded)
-	Race     bool // happens-before race check
-	MaxSched int
-	Note     string
-	NoNative bool // concurrency harness: no deterministic native replay
+	Pkg        string
+	Fn         string
+	Args       []int64
+	Unwind     int
+	MaxPaths   int
+	Ctx        int  // context-switch bound (0 = unbounded)
+	Race       bool // happens-before race check
+	MaxSched   int
+	Note       string
+	NoNative   bool // concurrency harness: no deterministic native replay
+	RandChoice bool // math/rand.Float64 = one of {0, 0.5, 0.9999999} instead of a symbolic float
 }
 
 func (i Inst) Key() string { return fmt.Sprintf("%s.%s%v", i.Pkg, i.Fn, i.Args) }
@@ -210,7 +211,7 @@ func explore(l *loaded, insts []Inst, opt options) ([]*instResult, runStats, err
 					e = exec.New(l.World, s, exec.Config{})
 				}
 				e.Cfg = exec.Config{Unwind: ir.Inst.Unwind, ContextBound: ir.Inst.Ctx, RaceCheck: ir.Inst.Race,
-					MaxSched: ir.Inst.MaxSched, Trace: opt.trace, MaxSteps: 4000000}
+					MaxSched: ir.Inst.MaxSched, Trace: opt.trace, MaxSteps: 4000000, RandChoice: ir.Inst.RandChoice}
 				if e.Cfg.Unwind == 0 {
 					e.Cfg.Unwind = 1200
 				}
